@@ -269,6 +269,10 @@ def gen_matern(rng, d):
         ms["cs"] = at_bound(rng, 1e-3)                      # COVARIANCE_SCALE_LOWER_BOUND
     if rng.random() < 0.1:
         ms["ibs"][rng.randrange(len(ms["ibs"]))] = at_bound(rng, 1e-4)   # INVERSE_BANDWIDTHS_LOWER_BOUND
+    if rng.random() < 0.12:
+        # the UPPER part of the box (COVARIANCE_SCALE_UPPER_BOUND = 1e3): internal values above 709 under the
+        # positive encoding
+        ms["cs"] = rng.choice([rng.uniform(712.0, 999.0), rng.uniform(712.0, 999.0), 1e3 * (1.0 - 1e-6)])
     return ms
 
 
@@ -392,7 +396,7 @@ def check_installed(issues, label, got, intended):
             issues.append(("%s: get_params has no entry %r" % (label, k_), "param_roundtrip"))
         elif not abs(float(got[k_]) - float(v)) <= ENC_TOL[_enc[0]] * max(abs(float(v)), 1e-3):
             issues.append(("%s: parameter %s reads back as %r, requested %r" % (label, k_, float(got[k_]), float(v)),
-                           "param_roundtrip"))
+                           "param_roundtrip" if math.isfinite(float(got[k_])) else "param_readback_nonfinite"))
     extra = sorted(set(got) - set(intended))
     if extra:
         issues.append(("%s: get_params has unexpected entries %s" % (label, extra), "param_roundtrip"))
@@ -584,7 +588,7 @@ def run_case(ctx, spec, ck_cases=None, ck_meta=None):
     def viol(what, quantity):
         ctx.violation("property", "[%s kernel] %s" % (sub, what), case=dict(kind="gpc", spec=spec),
                       signature=dict(component="gp_posterior", kernel=sub, quantity=quantity,
-                                     warping_blocks=nblocks))
+                                     warping_blocks=nblocks, encoding=spec.get("enc", "logarithm")))
 
     issues = []
     kern, meanf, ref, mref = build(spec, issues)
